@@ -13,7 +13,11 @@ Helper lemmas for `Props/C11Wire.lean`.
 3. `clientDecode (serverFields p) = p.ev.asSeen` and `serverDecode (replyFields q) = q`;
 4. `decodeEach` over a mapped list, the `SrvPkt` views of `beforeDisc`/`hasDisc`, the closed form of
    the run (`run_facts`), flattening of the written chunks;
-5. concrete profiles, cipher and inbox for the non-vacuity examples and the negative witness.
+5. set compression in the play state: the client's reading loop on bytes (`parseClient`) and on the
+   server's stream with a threshold per position; the instrumented loop `runT` against `runLoop`
+   (`runT_spec`); the written chunks and the reference server with a threshold per frame; the
+   one-threshold special case of a stream without such packets;
+6. concrete profiles, cipher and inbox for the non-vacuity examples and the negative witness.
 -/
 namespace PyCraft.PlayWire
 open PyCraft PyCraft.Play
@@ -189,14 +193,25 @@ theorem clientDecode_serverFields (P : Profile) (hP : P.cbDistinct = true) (p : 
     exact readDisconnect_fields json h
   | other pid name fields =>
     simp only [SrvPkt.wf, Bool.and_eq_true, bne_iff_ne, ne_eq, beq_iff_eq] at h
-    obtain ⟨⟨⟨a, b⟩, c⟩, d⟩ := h
-    simp only [clientDecode, serverFields, if_neg a, if_neg b, if_neg c, d]
+    obtain ⟨⟨⟨⟨a, b⟩, c⟩, sc⟩, d⟩ := h
+    simp only [clientDecode, serverFields, if_neg a, if_neg b, if_neg c, if_neg sc, d]
     rfl
   | unknown pid data =>
     simp only [SrvPkt.wf, Bool.and_eq_true, bne_iff_ne, ne_eq, Option.isNone_iff_eq_none] at h
-    obtain ⟨⟨⟨a, b⟩, c⟩, d⟩ := h
-    simp only [clientDecode, serverFields, if_neg a, if_neg b, if_neg c, d]
+    obtain ⟨⟨⟨⟨a, b⟩, c⟩, sc⟩, d⟩ := h
+    simp only [clientDecode, serverFields, if_neg a, if_neg b, if_neg c, if_neg sc, d]
     rfl
+  | setCompression t =>
+    simp only [SrvPkt.wf] at h
+    cases hs : P.setCompressionCb with
+    | none => rw [hs] at h; cases h
+    | some pid =>
+      rw [hs] at h
+      simp only [Bool.and_eq_true, bne_iff_ne, ne_eq, decide_eq_true_eq] at h
+      obtain ⟨⟨⟨a, b⟩, c⟩, d⟩ := h
+      simp only [clientDecode, serverFields, hs, Option.getD_some, if_neg a, if_neg b, if_neg c,
+        if_true, readSetCompression, decVarInt_enc_nil t d]
+      rfl
 
 /-! ## the reference server's decoder on what the client writes -/
 
@@ -366,6 +381,7 @@ theorem due_wf (P : Profile) (pkts : List SrvPkt) (h : ∀ p ∈ pkts, p.wf P = 
   | disconnect j => simp [SrvPkt.ev, replyTo] at hqp
   | other a b c => simp [SrvPkt.ev, replyTo] at hqp
   | unknown a b => simp [SrvPkt.ev, replyTo] at hqp
+  | setCompression t => simp [SrvPkt.ev, replyTo] at hqp
 
 /-! ## the written chunks -/
 
@@ -547,6 +563,7 @@ theorem replyTo_fields (P : Profile) (p : SrvPkt) :
   | disconnect j => rfl
   | other a b c => rfl
   | unknown a b => rfl
+  | setCompression t => rfl
 
 theorem due_fields (P : Profile) (pkts : List SrvPkt) :
     (due P pkts).map (replyFields P) = (beforeDiscP pkts).flatMap (echoOf P) := by
@@ -594,6 +611,7 @@ theorem ack_fields (P : Profile) (p : SrvPkt) :
   | disconnect j => rfl
   | other a b c => rfl
   | unknown a b => rfl
+  | setCompression t => rfl
 
 theorem ack_filter_server (P : Profile) (l : List SrvPkt) :
     ((inboxOf l).filterMap (expectedAck P.newer107)).map (replyFields P) =
@@ -636,6 +654,634 @@ theorem sends_frames (z : ZlibOps) (thr : Option Int) (P : Profile) (replies : L
       ((replies.map (replyFields P)).map (packetFrame z thr)).flatten := by
   rw [sends_flatten, List.map_map]; rfl
 
+/-! ## set compression: the reader follows the stream's thresholds -/
+
+/-- What `react`'s first branch installs for a packet the server wrote: the threshold of a
+set-compression packet, nothing for any other packet. -/
+theorem switchOf_serverFields (P : Profile) (p : SrvPkt) (h : p.wf P = true) :
+    switchOf P (serverFields P p) =
+      (match p with
+       | .setCompression t => some t
+       | _ => none) := by
+  cases p with
+  | keepAlive id => simp [switchOf, serverFields]
+  | posLook x y z yaw pitch flags tid dv => simp [switchOf, serverFields]
+  | disconnect json => simp [switchOf, serverFields]
+  | other pid name fields =>
+    simp only [SrvPkt.wf, Bool.and_eq_true, bne_iff_ne, ne_eq, beq_iff_eq] at h
+    obtain ⟨⟨⟨⟨a, b⟩, c⟩, sc⟩, -⟩ := h
+    simp [switchOf, serverFields, a, b, c, sc]
+  | unknown pid data =>
+    simp only [SrvPkt.wf, Bool.and_eq_true, bne_iff_ne, ne_eq, Option.isNone_iff_eq_none] at h
+    obtain ⟨⟨⟨⟨a, b⟩, c⟩, sc⟩, -⟩ := h
+    simp [switchOf, serverFields, a, b, c, sc]
+  | setCompression t =>
+    simp only [SrvPkt.wf] at h
+    cases hs : P.setCompressionCb with
+    | none => rw [hs] at h; cases h
+    | some pid =>
+      rw [hs] at h
+      simp only [Bool.and_eq_true, bne_iff_ne, ne_eq, decide_eq_true_eq] at h
+      obtain ⟨⟨⟨a, b⟩, c⟩, d⟩ := h
+      simp [switchOf, serverFields, hs, a, b, c, readSetCompression, decVarInt_enc_nil t d]
+
+/-- The reader's flag after the packet is "a threshold is in force after the packet". -/
+theorem flag_step (P : Profile) (p : SrvPkt) (h : p.wf P = true) (thr : Option Int) :
+    (thr.isSome || (switchOf P (serverFields P p)).isSome) = (p.thrAfter thr).isSome := by
+  rw [switchOf_serverFields P p h]
+  cases p <;> simp [SrvPkt.thrAfter]
+
+/-- `clientReadFuel` on a byte string. -/
+def parseClient (P : Profile) (z : ZlibOps) : Nat → Bool → Bytes → List PlayEv × Err
+  | 0, _, _ => ([], .other)
+  | fuel + 1, c, bs =>
+    match parsePacket z c bs with
+    | .error e => ([], e)
+    | .ok (raw, rest) =>
+      match clientDecode P raw with
+      | .error e => ([], e)
+      | .ok ev =>
+        (ev :: (parseClient P z fuel (c || (switchOf P raw).isSome) rest).1,
+          (parseClient P z fuel (c || (switchOf P raw).isSome) rest).2)
+
+/-- The client's reading loop sees only the decrypted concatenation of what is still to arrive. -/
+theorem clientReadFuel_spec {σ : Type} (P : Profile) (dec : StreamXform σ) (z : ZlibOps) :
+    ∀ (fuel : Nat) (c : Bool) (k : Sock σ),
+      clientReadFuel P dec z fuel c k = parseClient P z fuel c (ahead dec k) := by
+  intro fuel
+  induction fuel with
+  | zero => intro c k; rfl
+  | succ fuel ih =>
+    intro c k
+    have hp := readPacketK_spec dec z c k
+    simp only [clientReadFuel, parseClient]
+    cases hd : parsePacket z c (ahead dec k) with
+    | error e =>
+      obtain ⟨k1, e1⟩ := hp.2 e hd
+      simp only [e1]
+    | ok pr =>
+      obtain ⟨raw, rest⟩ := pr
+      obtain ⟨k1, e1, e2⟩ := hp.1 raw rest hd
+      simp only [e1]
+      cases clientDecode P raw with
+      | error e => rfl
+      | ok ev => simp only [ih, e2]
+
+/-- … in particular only the concatenation of the arrival segments (any segmentation). -/
+theorem clientRead_spec {σ : Type} (P : Profile) (dec : StreamXform σ) (s0 : σ) (z : ZlibOps)
+    (c : Bool) (segs : Segs) :
+    clientRead P dec s0 z c segs =
+      parseClient P z (segs.flatten.length + 1) c (dec.update s0 segs.flatten).2 := by
+  unfold clientRead
+  rw [clientReadFuel_spec, ahead_enc]
+
+theorem packetFrame_ne_nil' (z : ZlibOps) (thr : Option Int) (p : Nat × Bytes) :
+    packetFrame z thr p ≠ [] := by
+  unfold packetFrame frame
+  exact List.append_ne_nil_of_left_ne_nil (enc_ne_nil _) _
+
+theorem serverBytes_cons (z : ZlibOps) (thr : Option Int) (P : Profile) (p : SrvPkt)
+    (ps : List SrvPkt) :
+    serverBytes z thr P (p :: ps) =
+      packetFrame z thr (serverFields P p) ++ serverBytes z (p.thrAfter thr) P ps := by
+  simp [serverBytes, serverFrames]
+
+theorem serverBytes_length (z : ZlibOps) (P : Profile) : ∀ (pkts : List SrvPkt) (thr : Option Int),
+    pkts.length ≤ (serverBytes z thr P pkts).length
+  | [], _ => by simp [serverBytes, serverFrames]
+  | p :: ps, thr => by
+    rw [serverBytes_cons, List.length_append, List.length_cons]
+    have := List.length_pos_iff.mpr (packetFrame_ne_nil' z thr (serverFields P p))
+    have := serverBytes_length z P ps (p.thrAfter thr)
+    omega
+
+theorem parsePacket_nil (z : ZlibOps) (c : Bool) : parsePacket z c [] = .error .eof := by
+  simp [parsePacket, parseFrame, decVarInt, decVarIntAux]
+
+/-- The server's stream — every frame under the threshold in force at its position — is decoded to
+the events the packets are, the reader's flag following the set-compression packets, then end of
+stream. -/
+theorem parseClient_server (z : Zlib) (P : Profile) (hP : P.cbDistinct = true) :
+    ∀ (pkts : List SrvPkt) (thr : Option Int) (fuel : Nat),
+      (∀ p ∈ pkts, p.wf P = true) → ServerOK z.toZlibOps P thr pkts → pkts.length < fuel →
+      parseClient P z.toZlibOps fuel thr.isSome (serverBytes z.toZlibOps thr P pkts) =
+        (inboxOf pkts, .eof) := by
+  intro pkts
+  induction pkts with
+  | nil =>
+    intro thr fuel _ _ hf
+    cases fuel with
+    | zero => omega
+    | succ fuel =>
+      simp only [parseClient, serverBytes, serverFrames, List.flatten_nil, parsePacket_nil]
+      rfl
+  | cons p ps ih =>
+    intro thr fuel hwf hok hf
+    cases fuel with
+    | zero => omega
+    | succ fuel =>
+      obtain ⟨hok1, hok2⟩ := hok
+      have hw := hwf p (by simp)
+      rw [serverBytes_cons]
+      simp only [parseClient, parsePacket_packetFrame z thr _ _ hok1,
+        clientDecode_serverFields P hP p hw, flag_step P p hw thr]
+      rw [ih (p.thrAfter thr) fuel (fun q hq => hwf q (by simp [hq])) hok2 (by simp at hf; omega)]
+      rfl
+
+/-! ## set compression: the instrumented loop is the loop -/
+
+theorem writeLoop_wire (capW : Nat) : ∀ (queue : List Reply) (num : Nat) (wire : List Reply),
+    ∃ l, (writeLoop capW num queue wire).2.2 = wire ++ l
+  | [], _, wire => ⟨[], by simp [writeLoop]⟩
+  | p :: q, num, wire => by
+    unfold writeLoop
+    by_cases h : num + 1 ≥ capW
+    · exact ⟨[p], by simp [h]⟩
+    · obtain ⟨l, hl⟩ := writeLoop_wire capW q (num + 1) (wire ++ [p])
+      exact ⟨p :: l, by simp only [h, if_false, hl]; simp⟩
+
+theorem reactAll_wire (newer po : Bool) (c : Conn) (e : PlayEv) :
+    ∃ l, (reactAll newer po c e).wire = c.wire ++ l := by
+  by_cases h : e = .disconnect
+  · subst h
+    cases c with
+    | mk queue wire delivered spawned connected interrupt closed =>
+      cases queue with
+      | nil => exact ⟨[], by cases closed <;> simp [reactAll, react, disconnect]⟩
+      | cons p q =>
+        cases closed
+        · cases po
+          · exact ⟨[], by simp [reactAll, react, disconnect]⟩
+          · exact ⟨p :: q, by simp [reactAll, react, disconnect]⟩
+        · exact ⟨[], by simp [reactAll, react, disconnect]⟩
+  · exact ⟨[], by simp [reactAll, react_ne_disc newer po c e h]⟩
+
+/-- The tags describe the wire, never exceed the number of packets processed, and never decrease. -/
+structure TagInv (wire : List Reply) (d : Nat) (tw : List Tagged) : Prop where
+  fst : tw.map (·.1) = wire
+  le : ∀ x ∈ tw, x.2 ≤ d
+  mono : tw.Pairwise fun a b => a.2 ≤ b.2
+
+theorem TagInv.nil : TagInv [] 0 [] := ⟨rfl, fun _ h => (by cases h), List.Pairwise.nil⟩
+
+theorem pairwise_same_tag (n : Nat) : ∀ l : List Reply,
+    (l.map fun q => ((q, n) : Tagged)).Pairwise fun a b => a.2 ≤ b.2
+  | [] => List.Pairwise.nil
+  | q :: l => by
+    rw [List.map_cons, List.pairwise_cons]
+    refine ⟨fun b hb => ?_, pairwise_same_tag n l⟩
+    obtain ⟨q', -, rfl⟩ := List.mem_map.mp hb
+    exact Nat.le_refl _
+
+theorem TagInv.tagNew {wire : List Reply} {d : Nat} {tw : List Tagged} (h : TagInv wire d tw)
+    (l : List Reply) (n : Nat) (hn : d ≤ n) : TagInv (wire ++ l) n (tagNew wire (wire ++ l) n tw) := by
+  have hdrop : (wire ++ l).drop wire.length = l := List.drop_left' rfl
+  refine ⟨?_, ?_, ?_⟩
+  · simp [PlayWire.tagNew, hdrop, h.fst, Function.comp_def]
+  · intro x hx
+    simp only [PlayWire.tagNew, hdrop, List.mem_append, List.mem_map] at hx
+    rcases hx with hx | ⟨q, -, rfl⟩
+    · exact Nat.le_trans (h.le x hx) hn
+    · exact Nat.le_refl _
+  · simp only [PlayWire.tagNew, hdrop]
+    rw [List.pairwise_append]
+    refine ⟨h.mono, pairwise_same_tag n l, ?_⟩
+    · intro a ha b hb
+      obtain ⟨q, -, rfl⟩ := List.mem_map.mp hb
+      exact Nat.le_trans (h.le a ha) hn
+
+theorem readLoopT_sim (newer po : Bool) (capR : Nat) : ∀ (inbox : List PlayEv) (num : Nat)
+    (c : Conn) (d : Nat) (tw : List Tagged), TagInv c.wire d tw →
+    (readLoopT newer po capR num c d tw inbox).1.1 = (readLoop newer po capR num c inbox).1 ∧
+    (readLoopT newer po capR num c d tw inbox).2 = (readLoop newer po capR num c inbox).2 ∧
+    TagInv (readLoopT newer po capR num c d tw inbox).1.1.wire
+      (readLoopT newer po capR num c d tw inbox).1.2.1
+      (readLoopT newer po capR num c d tw inbox).1.2.2 ∧
+    (readLoopT newer po capR num c d tw inbox).1.2.1 +
+      (readLoopT newer po capR num c d tw inbox).2.length = d + inbox.length
+  | [], num, c, d, tw, h => by simp [readLoopT, readLoop, h]
+  | e :: rest, num, c, d, tw, h => by
+    by_cases hc : num < capR ∧ c.interrupt = false
+    · obtain ⟨l, hl⟩ := reactAll_wire newer po c e
+      have h' : TagInv (reactAll newer po c e).wire (d + 1)
+          (tagNew c.wire (reactAll newer po c e).wire (d + 1) tw) := by
+        rw [hl]; exact h.tagNew l (d + 1) (by omega)
+      obtain ⟨a, b, c', d'⟩ := readLoopT_sim newer po capR rest (num + 1) _ (d + 1) _ h'
+      simp only [readLoopT, readLoop, hc, and_self, if_true]
+      refine ⟨a, b, c', ?_⟩
+      rw [d', List.length_cons]; omega
+    · simp [readLoopT, readLoop, hc, h]
+
+theorem loopT_sim (newer po : Bool) (capW capR : Nat) : ∀ (fuel : Nat) (c : Conn) (d : Nat)
+    (tw : List Tagged) (inbox : List PlayEv) (N : Nat), TagInv c.wire d tw → d + inbox.length = N →
+    (loopT newer po capW capR fuel c d tw inbox).map (·.1) = loop newer po capW capR fuel c inbox ∧
+    ∀ r, loopT newer po capW capR fuel c d tw inbox = some r → TagInv r.1.wire N r.2
+  | 0, _, _, _, _, _, _, _ => ⟨rfl, fun _ h => by cases h⟩
+  | fuel + 1, c, d, tw, inbox, N, h, hN => by
+    have hup : TagInv c.wire N tw := ⟨h.fst, fun x hx => Nat.le_trans (h.le x hx) (by omega), h.mono⟩
+    by_cases hi : c.interrupt = true
+    · have e1 : loopT newer po capW capR (fuel + 1) c d tw inbox = some (c, tw) := by
+        simp only [loopT]; rw [if_pos hi]
+      have e2 : loop newer po capW capR (fuel + 1) c inbox = some c := by
+        simp only [loop]; rw [if_pos hi]
+      rw [e1, e2]
+      exact ⟨rfl, fun r hr => by cases hr; exact hup⟩
+    · by_cases hq : inbox = [] ∧ c.queue = []
+      · have e1 : loopT newer po capW capR (fuel + 1) c d tw inbox = some (c, tw) := by
+          simp only [loopT]; rw [if_neg hi, if_pos hq]
+        have e2 : loop newer po capW capR (fuel + 1) c inbox = some c := by
+          simp only [loop]; rw [if_neg hi, if_pos hq]
+        rw [e1, e2]
+        exact ⟨rfl, fun r hr => by cases hr; exact hup⟩
+      · obtain ⟨l, hl⟩ := writeLoop_wire capW c.queue 0 c.wire
+        have h1 : TagInv (writeLoop capW 0 c.queue c.wire).2.2 d
+            (tagNew c.wire (writeLoop capW 0 c.queue c.wire).2.2 d tw) := by
+          rw [hl]; exact h.tagNew l d (Nat.le_refl _)
+        obtain ⟨a, b, c', d'⟩ := readLoopT_sim newer po capR inbox (writeLoop capW 0 c.queue c.wire).1
+          { c with queue := (writeLoop capW 0 c.queue c.wire).2.1,
+                   wire := (writeLoop capW 0 c.queue c.wire).2.2 } d _ h1
+        have ih := loopT_sim newer po capW capR fuel _ _ _ _ N c' (by rw [d']; exact hN)
+        simp only [loopT, loop]
+        rw [if_neg hi, if_neg hq, if_neg hi, if_neg hq, ← a, ← b]
+        exact ih
+
+/-- **The instrumented run is the run.**  Whenever `runLoop` terminates so does `runT` (and vice
+versa); forgetting the tags of `runT` gives `Result.wire`; every tag is at most the number of
+packets of the stream, and the tags never decrease along the wire. -/
+theorem runT_spec (newer po : Bool) (capW capR : Nat) (inbox : List PlayEv) (r : Result)
+    (h : runLoop newer po capW capR inbox = some r) :
+    ∃ tw, runT newer po capW capR inbox = some tw ∧ tw.map (·.1) = r.wire ∧
+      (∀ x ∈ tw, x.2 ≤ inbox.length) ∧ tw.Pairwise fun a b => a.2 ≤ b.2 := by
+  obtain ⟨hs, ht⟩ := loopT_sim newer po capW capR (2 * inbox.length + 1) Conn.init 0 [] inbox
+    inbox.length TagInv.nil (by simp)
+  unfold runLoop at h
+  unfold runT
+  cases hl : loop newer po capW capR (2 * inbox.length + 1) Conn.init inbox with
+  | none => rw [hl] at h; cases h
+  | some c =>
+    rw [hl] at h hs
+    cases hT : loopT newer po capW capR (2 * inbox.length + 1) Conn.init 0 [] inbox with
+    | none => rw [hT] at hs; cases hs
+    | some ct =>
+      rw [hT] at hs
+      have hc : ct.1 = c := by simpa using hs
+      have inv := ht ct hT
+      injection h with h
+      subst h
+      refine ⟨ct.2, rfl, ?_, inv.le, inv.mono⟩
+      rw [inv.fst, hc]
+
+/-! ## set compression: a reply is written after the packet it answers has been processed -/
+
+/-- How many replies the first `n` events of `E` cause. -/
+def repliesUpTo (newer : Bool) (E : List PlayEv) (n : Nat) : Nat :=
+  ((E.take n).flatMap (replyTo newer)).length
+
+/-- The entry at wire position `i + k` carries a tag `n` with `i + k < f n`. -/
+def okTags (f : Nat → Nat) : Nat → List Tagged → Prop
+  | _, [] => True
+  | i, x :: r => i < f x.2 ∧ okTags f (i + 1) r
+
+theorem okTags_append (f : Nat → Nat) : ∀ (a b : List Tagged) (i : Nat),
+    okTags f i (a ++ b) ↔ okTags f i a ∧ okTags f (i + a.length) b
+  | [], b, i => by simp [okTags]
+  | x :: a, b, i => by
+    simp only [List.cons_append, okTags, okTags_append f a b (i + 1), List.length_cons, and_assoc]
+    have : i + 1 + a.length = i + (a.length + 1) := by omega
+    rw [this]
+
+theorem okTags_same (f : Nat → Nat) (n : Nat) : ∀ (l : List Reply) (i : Nat), i + l.length ≤ f n →
+    okTags f i (l.map fun q => ((q, n) : Tagged))
+  | [], _, _ => trivial
+  | q :: l, i, h => by
+    simp only [List.length_cons] at h
+    show i < f n ∧ _
+    exact ⟨by omega, okTags_same f n l (i + 1) (by omega)⟩
+
+theorem okTags_get (f : Nat → Nat) : ∀ (tw : List Tagged) (i : Nat), okTags f i tw →
+    ∀ (j : Nat) (hj : j < tw.length), i + j < f tw[j].2
+  | [], _, _, j, hj => by simp at hj
+  | x :: r, i, h, 0, _ => by simpa using h.1
+  | x :: r, i, h, j + 1, hj => by
+    have := okTags_get f r (i + 1) h.2 j (by simpa using hj)
+    simp only [List.getElem_cons_succ]
+    omega
+
+theorem tagNew_fst (wire l : List Reply) (n : Nat) (tw : List Tagged) (h : tw.map (·.1) = wire) :
+    (tagNew wire (wire ++ l) n tw).map (·.1) = wire ++ l := by
+  have hdrop : (wire ++ l).drop wire.length = l := List.drop_left' rfl
+  simp [tagNew, hdrop, h, Function.comp_def]
+
+theorem okTags_tagNew (f : Nat → Nat) (wire l : List Reply) (n : Nat) (tw : List Tagged)
+    (hfst : tw.map (·.1) = wire) (h : okTags f 0 tw) (hb : wire.length + l.length ≤ f n) :
+    okTags f 0 (tagNew wire (wire ++ l) n tw) := by
+  have hdrop : (wire ++ l).drop wire.length = l := List.drop_left' rfl
+  have hlen : tw.length = wire.length := by rw [← hfst, List.length_map]
+  simp only [tagNew, hdrop]
+  rw [okTags_append]
+  exact ⟨h, okTags_same f n l _ (by omega)⟩
+
+theorem repliesUpTo_succ (newer : Bool) (pre : List PlayEv) (e : PlayEv) (rest : List PlayEv) :
+    repliesUpTo newer (pre ++ e :: rest) (pre.length + 1) =
+      repliesUpTo newer (pre ++ e :: rest) pre.length + (replyTo newer e).length := by
+  have e0 : pre ++ e :: rest = (pre ++ [e]) ++ rest := by simp
+  have e1 : (pre ++ e :: rest).take (pre.length + 1) = pre ++ [e] := by
+    rw [e0]; exact List.take_left' (by simp)
+  have e2 : (pre ++ e :: rest).take pre.length = pre := List.take_left' rfl
+  simp [repliesUpTo, e1, e2]
+
+theorem reactAll_len (newer po : Bool) (c : Conn) (e : PlayEv) :
+    (reactAll newer po c e).wire.length + (reactAll newer po c e).queue.length ≤
+      c.wire.length + c.queue.length + (replyTo newer e).length := by
+  by_cases h : e = .disconnect
+  · subst h
+    cases c with
+    | mk queue wire delivered spawned connected interrupt closed =>
+      cases queue with
+      | nil => cases closed <;> simp [reactAll, react, disconnect, replyTo]
+      | cons p q =>
+        cases closed
+        · cases po <;> simp [reactAll, react, disconnect, replyTo] <;> omega
+        · simp [reactAll, react, disconnect, replyTo]
+  · simp [reactAll, react_ne_disc newer po c e h]; omega
+
+/-- The read phase keeps "everything written or queued is caused by the packets processed so far", and
+tags what `disconnect()` flushes accordingly. -/
+theorem readLoopT_after (newer po : Bool) (capR : Nat) (E : List PlayEv) :
+    ∀ (inbox : List PlayEv) (pre : List PlayEv) (d num : Nat) (c : Conn) (tw : List Tagged),
+    pre ++ inbox = E → d = pre.length → tw.map (·.1) = c.wire →
+    c.wire.length + c.queue.length ≤ repliesUpTo newer E d →
+    okTags (repliesUpTo newer E) 0 tw →
+    ∃ pre', pre' ++ (readLoopT newer po capR num c d tw inbox).2 = E ∧
+      (readLoopT newer po capR num c d tw inbox).1.2.1 = pre'.length ∧
+      (readLoopT newer po capR num c d tw inbox).1.1.wire.length +
+        (readLoopT newer po capR num c d tw inbox).1.1.queue.length ≤
+          repliesUpTo newer E (readLoopT newer po capR num c d tw inbox).1.2.1 ∧
+      okTags (repliesUpTo newer E) 0 (readLoopT newer po capR num c d tw inbox).1.2.2 ∧
+      (readLoopT newer po capR num c d tw inbox).1.2.2.map (·.1) =
+        (readLoopT newer po capR num c d tw inbox).1.1.wire
+  | [], pre, d, num, c, tw, hE, hd, hfst, hb, ht =>
+    ⟨pre, by simpa [readLoopT] using hE, hd, hb, ht, hfst⟩
+  | e :: rest, pre, d, num, c, tw, hE, hd, hfst, hb, ht => by
+    by_cases hc : num < capR ∧ c.interrupt = false
+    · obtain ⟨l, hl⟩ := reactAll_wire newer po c e
+      have hlen := reactAll_len newer po c e
+      have hsucc : repliesUpTo newer E (d + 1) =
+          repliesUpTo newer E d + (replyTo newer e).length := by
+        rw [← hE, hd]; exact repliesUpTo_succ newer pre e rest
+      have hb' : (reactAll newer po c e).wire.length + (reactAll newer po c e).queue.length ≤
+          repliesUpTo newer E (d + 1) := by rw [hsucc]; omega
+      have hw : c.wire.length + l.length ≤ repliesUpTo newer E (d + 1) := by
+        have : (reactAll newer po c e).wire.length = c.wire.length + l.length := by
+          rw [hl, List.length_append]
+        omega
+      have ht' : okTags (repliesUpTo newer E) 0
+          (tagNew c.wire (reactAll newer po c e).wire (d + 1) tw) := by
+        rw [hl]; exact okTags_tagNew _ c.wire l _ tw hfst ht hw
+      have hfst' : (tagNew c.wire (reactAll newer po c e).wire (d + 1) tw).map (·.1) =
+          (reactAll newer po c e).wire := by
+        rw [hl]; exact tagNew_fst c.wire l _ tw hfst
+      have ih := readLoopT_after newer po capR E rest (pre ++ [e]) (d + 1) (num + 1)
+        (reactAll newer po c e) _ (by rw [← hE]; simp) (by simp [hd]) hfst' hb' ht'
+      have hstep : readLoopT newer po capR num c d tw (e :: rest) =
+          readLoopT newer po capR (num + 1) (reactAll newer po c e) (d + 1)
+            (tagNew c.wire (reactAll newer po c e).wire (d + 1) tw) rest := by
+        simp only [readLoopT]; rw [if_pos hc]
+      rw [hstep]
+      exact ih
+    · have hstep : readLoopT newer po capR num c d tw (e :: rest) = ((c, d, tw), e :: rest) := by
+        simp only [readLoopT]; rw [if_neg hc]
+      rw [hstep]
+      exact ⟨pre, hE, hd, hb, ht, hfst⟩
+
+/-- The whole instrumented loop: every tag `n` at wire position `j` satisfies
+`j < repliesUpTo newer E n`. -/
+theorem loopT_after (newer po : Bool) (capW capR : Nat) (E : List PlayEv) :
+    ∀ (fuel : Nat) (c : Conn) (pre : List PlayEv) (d : Nat) (tw : List Tagged) (inbox : List PlayEv),
+    pre ++ inbox = E → d = pre.length → tw.map (·.1) = c.wire →
+    c.wire.length + c.queue.length ≤ repliesUpTo newer E d →
+    okTags (repliesUpTo newer E) 0 tw →
+    ∀ r, loopT newer po capW capR fuel c d tw inbox = some r → okTags (repliesUpTo newer E) 0 r.2
+  | 0, _, _, _, _, _, _, _, _, _, _, _, h => by cases h
+  | fuel + 1, c, pre, d, tw, inbox, hE, hd, hfst, hb, ht, r, hr => by
+    by_cases hi : c.interrupt = true
+    · have e1 : loopT newer po capW capR (fuel + 1) c d tw inbox = some (c, tw) := by
+        simp only [loopT]; rw [if_pos hi]
+      rw [e1] at hr; cases hr; exact ht
+    · by_cases hq : inbox = [] ∧ c.queue = []
+      · have e1 : loopT newer po capW capR (fuel + 1) c d tw inbox = some (c, tw) := by
+          simp only [loopT]; rw [if_neg hi, if_pos hq]
+        rw [e1] at hr; cases hr; exact ht
+      · obtain ⟨l, hl⟩ := writeLoop_wire capW c.queue 0 c.wire
+        obtain ⟨ws, -, -, -⟩ := writeLoop_spec capW 0 c.queue c.wire
+        have hsum : (writeLoop capW 0 c.queue c.wire).2.2.length +
+            (writeLoop capW 0 c.queue c.wire).2.1.length = c.wire.length + c.queue.length := by
+          rw [← List.length_append, ws, List.length_append]
+        have hw : c.wire.length + l.length ≤ repliesUpTo newer E d := by
+          have : (writeLoop capW 0 c.queue c.wire).2.2.length = c.wire.length + l.length := by
+            rw [hl, List.length_append]
+          omega
+        have ht1 : okTags (repliesUpTo newer E) 0
+            (tagNew c.wire (writeLoop capW 0 c.queue c.wire).2.2 d tw) := by
+          rw [hl]; exact okTags_tagNew _ c.wire l d tw hfst ht hw
+        have hfst1 : (tagNew c.wire (writeLoop capW 0 c.queue c.wire).2.2 d tw).map (·.1) =
+            (writeLoop capW 0 c.queue c.wire).2.2 := by
+          rw [hl]; exact tagNew_fst c.wire l d tw hfst
+        obtain ⟨pre', p1, p2, p3, p4, p5⟩ := readLoopT_after newer po capR E inbox pre d
+          (writeLoop capW 0 c.queue c.wire).1
+          { c with queue := (writeLoop capW 0 c.queue c.wire).2.1,
+                   wire := (writeLoop capW 0 c.queue c.wire).2.2 } _ hE hd hfst1
+          (by show (writeLoop capW 0 c.queue c.wire).2.2.length +
+                (writeLoop capW 0 c.queue c.wire).2.1.length ≤ _; omega) ht1
+        simp only [loopT] at hr
+        rw [if_neg hi, if_neg hq] at hr
+        exact loopT_after newer po capW capR E fuel _ pre' _ _ _ p1 p2 p5 p3 p4 r hr
+
+theorem repliesUpTo_mono (newer : Bool) (E : List PlayEv) {a b : Nat} (h : a ≤ b) :
+    repliesUpTo newer E a ≤ repliesUpTo newer E b := by
+  unfold repliesUpTo
+  have e : E.take b = (E.take b).take a ++ (E.take b).drop a := (List.take_append_drop a _).symm
+  have e2 : (E.take b).take a = E.take a := by rw [List.take_take, Nat.min_eq_left h]
+  rw [e, e2, List.flatMap_append, List.length_append]
+  omega
+
+theorem repliesUpTo_inboxOf (P : Profile) (pkts : List SrvPkt) (n : Nat) :
+    repliesUpTo P.newer107 (inboxOf pkts) n =
+      ((pkts.take n).flatMap fun p => replyTo P.newer107 p.ev).length := by
+  unfold repliesUpTo inboxOf
+  rw [← List.map_take, List.flatMap_map]
+  congr 2
+  funext p
+  exact replyTo_asSeen _ _
+
+/-- **A reply is written after the packet it answers has been processed**: the tag `n` of the reply
+at wire position `j` satisfies `j < repliesUpTo inbox n` — the first `n` packets cause more than `j`
+replies. -/
+theorem runT_after (newer po : Bool) (capW capR : Nat) (inbox : List PlayEv) (tw : List Tagged)
+    (h : runT newer po capW capR inbox = some tw) :
+    ∀ (j : Nat) (hj : j < tw.length), j < repliesUpTo newer inbox tw[j].2 := by
+  unfold runT at h
+  cases hT : loopT newer po capW capR (2 * inbox.length + 1) Conn.init 0 [] inbox with
+  | none => rw [hT] at h; cases h
+  | some ct =>
+    rw [hT] at h
+    have : ct.2 = tw := by simpa using h
+    subst this
+    have hok := loopT_after newer po capW capR inbox (2 * inbox.length + 1) Conn.init [] 0 [] inbox
+      rfl rfl rfl (by simp [Conn.init]) trivial ct hT
+    intro j hj
+    have := okTags_get _ ct.2 0 hok j hj
+    omega
+
+/-! ## set compression: the written chunks and the reference server, a threshold per frame -/
+
+theorem sendsT_flatten (z : ZlibOps) (fields : Reply → Nat × Bytes) :
+    ∀ l : List (Reply × Option Int),
+      (l.flatMap fun qt => sendsWith z qt.2 fields qt.1).flatten =
+        (l.map fun qt => frameWith z qt.2 fields qt.1).flatten
+  | [] => rfl
+  | qt :: rest => by
+    simp only [List.flatMap_cons, List.flatten_append, List.map_cons, List.flatten_cons,
+      sendsT_flatten z fields rest]
+    congr 1
+    exact frameSends_flatten' z qt.2 _
+
+/-- Whatever the chunking into `send` calls and whatever the thresholds, the socket is handed ONE
+cipher stream over the concatenated frames. -/
+theorem wireWithT_flatten {τ : Type} (z : ZlibOps) (enc : StreamXform τ) (t0 : τ)
+    (fields : Reply → Nat × Bytes) (l : List (Reply × Option Int)) :
+    (wireWithT z enc t0 fields l).flatten =
+      (enc.update t0 (l.map fun qt => frameWith z qt.2 fields qt.1).flatten).2 := by
+  unfold wireWithT
+  rw [encSends_flatten, sendsT_flatten]
+
+/-- One threshold for all replies is the old writer. -/
+theorem wireWithT_const {τ : Type} (z : ZlibOps) (thr : Option Int) (enc : StreamXform τ) (t0 : τ)
+    (fields : Reply → Nat × Bytes) (replies : List Reply) :
+    wireWithT z enc t0 fields (replies.map fun q => (q, thr)) = wireWith z thr enc t0 fields replies := by
+  unfold wireWithT wireWith
+  rw [List.flatMap_map]
+
+/-- `readFramesM` on a byte string. -/
+def parseFramesM (z : ZlibOps) : List Bool → Bool → Bytes → List (Nat × Bytes) × Err
+  | [], last, bs => parseAll z last bs
+  | c :: cs, _, bs =>
+    match parsePacket z c bs with
+    | .error e => ([], e)
+    | .ok (p, rest) => (p :: (parseFramesM z cs c rest).1, (parseFramesM z cs c rest).2)
+
+theorem readFramesM_spec {τ : Type} (dec : StreamXform τ) (z : ZlibOps) :
+    ∀ (modes : List Bool) (last : Bool) (k : Sock τ),
+      readFramesM dec z modes last k = parseFramesM z modes last (ahead dec k)
+  | [], last, k => by simp only [readFramesM, parseFramesM, readAllK_spec]
+  | c :: cs, last, k => by
+    have hp := readPacketK_spec dec z c k
+    simp only [readFramesM, parseFramesM]
+    cases hd : parsePacket z c (ahead dec k) with
+    | error e =>
+      obtain ⟨k1, e1⟩ := hp.2 e hd
+      simp only [e1]
+    | ok pr =>
+      obtain ⟨p, rest⟩ := pr
+      obtain ⟨k1, e1, e2⟩ := hp.1 p rest hd
+      simp only [e1, readFramesM_spec dec z cs c k1, e2]
+
+/-- Frames written under changing thresholds are read back by a reader that is told, frame by frame,
+whether a threshold was in force; then end of stream (whatever the flag for "the rest"). -/
+theorem parseFramesM_frames (z : Zlib) : ∀ (l : List ((Nat × Bytes) × Option Int)) (last : Bool),
+    (∀ x ∈ l, FrameOK z.toZlibOps x.2 x.1) →
+    parseFramesM z.toZlibOps (l.map (·.2.isSome)) last
+        (l.map fun x => packetFrame z.toZlibOps x.2 x.1).flatten = (l.map (·.1), .eof)
+  | [], last, _ => by simp [parseFramesM, parseAll_nil]
+  | x :: rest, last, h => by
+    simp only [List.map_cons, List.flatten_cons, parseFramesM,
+      parsePacket_packetFrame z x.2 x.1 _ (h x (by simp)),
+      parseFramesM_frames z rest x.2.isSome fun y hy => h y (by simp [hy])]
+
+/-- The reference server on the client's chunks, a threshold per reply. -/
+theorem serverDecodeRepliesM_wire {τ : Type} (cp : CipherPair τ) (t0 : τ) (z : Zlib) (P : Profile)
+    (hSb : P.sbDistinct = true) (l : List (Reply × Option Int))
+    (hwf : ∀ qt ∈ l, replyWf P qt.1 = true)
+    (hok : ∀ qt ∈ l, FrameOK z.toZlibOps qt.2 (replyFields P qt.1)) (last : Bool) (segs : Segs)
+    (hseg : segs.flatten = (clientWireT z.toZlibOps P cp.enc t0 l).flatten) :
+    serverDecodeRepliesM P cp.dec t0 z.toZlibOps (l.map (·.2.isSome)) last segs =
+      (l.map (·.1), .eof) := by
+  have hfr : (l.map fun qt => frameWith z.toZlibOps qt.2 (replyFields P) qt.1) =
+      ((l.map fun qt => (replyFields P qt.1, qt.2)).map fun x => packetFrame z.toZlibOps x.2 x.1) := by
+    rw [List.map_map]; rfl
+  have hmodes : l.map (·.2.isSome) = (l.map fun qt => (replyFields P qt.1, qt.2)).map (·.2.isSome) := by
+    rw [List.map_map]; rfl
+  have hr : readFramesM cp.dec z.toZlibOps (l.map (·.2.isSome)) last (Sock.enc t0 segs) =
+      (l.map fun qt => replyFields P qt.1, .eof) := by
+    rw [readFramesM_spec, ahead_enc, hseg, clientWireT, wireWithT_flatten, (cp.inv t0 _).1, hfr,
+      hmodes, parseFramesM_frames z _ last (fun x hx => by
+        obtain ⟨qt, hq, rfl⟩ := List.mem_map.mp hx
+        exact hok qt hq), List.map_map]
+    rfl
+  unfold serverDecodeRepliesM
+  rw [hr]
+  have := decodeEach_map (serverDecode P) (fun qt : Reply × Option Int => replyFields P qt.1)
+    (fun qt => qt.1) .eof l fun qt hq => serverDecode_replyFields P hSb qt.1 (hwf qt hq)
+  exact this
+
+/-! ## streams without set compression: one threshold, the old vocabulary -/
+
+theorem thrAfter_quiet (thr : Option Int) (p : SrvPkt) (h : p.isSetCompression = false) :
+    p.thrAfter thr = thr := by
+  cases p <;> simp_all [SrvPkt.thrAfter, SrvPkt.isSetCompression]
+
+theorem thrAt_quiet (thr : Option Int) : ∀ (pkts : List SrvPkt),
+    (∀ p ∈ pkts, p.isSetCompression = false) → ∀ n, thrAt thr pkts n = thr
+  | [], _, n => by simp [thrAt]
+  | p :: ps, h, 0 => by simp [thrAt]
+  | p :: ps, h, n + 1 => by
+    have ih := thrAt_quiet thr ps (fun q hq => h q (by simp [hq])) n
+    simp only [thrAt, List.take_succ_cons, List.foldl_cons,
+      thrAfter_quiet thr p (h p (by simp))] at ih ⊢
+    exact ih
+
+/-- The threshold in force at any position is the initial one or the one of a set-compression packet
+of the stream. -/
+theorem thrAt_cases (thr : Option Int) : ∀ (pkts : List SrvPkt) (n : Nat),
+    thrAt thr pkts n = thr ∨ ∃ t, SrvPkt.setCompression t ∈ pkts ∧ thrAt thr pkts n = some (t : Int)
+  | [], n => by simp [thrAt]
+  | p :: ps, 0 => by simp [thrAt]
+  | p :: ps, n + 1 => by
+    have e : thrAt thr (p :: ps) (n + 1) = thrAt (p.thrAfter thr) ps n := by
+      simp [thrAt, List.take_succ_cons]
+    rw [e]
+    rcases thrAt_cases (p.thrAfter thr) ps n with h | ⟨t, ht, h⟩
+    · rw [h]
+      cases p with
+      | setCompression t => exact .inr ⟨t, by simp, rfl⟩
+      | _ => exact .inl rfl
+    · exact .inr ⟨t, by simp [ht], h⟩
+
+theorem serverFrames_quiet (z : ZlibOps) (thr : Option Int) (P : Profile) : ∀ (pkts : List SrvPkt),
+    (∀ p ∈ pkts, p.isSetCompression = false) →
+    serverFrames z P thr pkts = pkts.map fun p => packetFrame z thr (serverFields P p)
+  | [], _ => rfl
+  | p :: ps, h => by
+    simp only [serverFrames, List.map_cons, thrAfter_quiet thr p (h p (by simp)),
+      serverFrames_quiet z thr P ps fun q hq => h q (by simp [hq])]
+
+theorem serverOK_quiet (z : ZlibOps) (thr : Option Int) (P : Profile) : ∀ (pkts : List SrvPkt),
+    (∀ p ∈ pkts, p.isSetCompression = false) →
+    (ServerOK z P thr pkts ↔ ∀ p ∈ pkts, FrameOK z thr (serverFields P p))
+  | [], _ => by simp [ServerOK]
+  | p :: ps, h => by
+    simp only [ServerOK, thrAfter_quiet thr p (h p (by simp)),
+      serverOK_quiet z thr P ps (fun q hq => h q (by simp [hq])), List.mem_cons, forall_eq_or_imp]
+
+theorem thrTags_quiet (thr : Option Int) (pkts : List SrvPkt)
+    (h : ∀ p ∈ pkts, p.isSetCompression = false) (tw : List Tagged) :
+    thrTags thr pkts tw = (tw.map (·.1)).map fun q => (q, thr) := by
+  unfold thrTags
+  rw [List.map_map]
+  apply List.map_congr_left
+  intro qn _
+  simp [thrAt_quiet thr pkts h]
+
 /-! ## concrete parameters for the non-vacuity examples and the negative witness -/
 
 /-- Protocol 757 (1.18): Long keep-alive, teleport id + confirm, dismount flag. -/
@@ -645,11 +1291,11 @@ def p757 : Profile :=
     others := [(0x0F, "chat message")] }
 
 /-- Protocol 47 (1.8): VarInt keep-alive, no teleport id, position echo; keep-alive and the (unused)
-teleport-confirm id are both 0x00. -/
+teleport-confirm id are both 0x00; the play table has "set compression" under 0x46. -/
 def p47 : Profile :=
   { kaCb := 0x00, kaSb := 0x00, posLookCb := 0x08, teleportConfirmSb := 0x00, posLookSb := 0x06,
     disconnectCb := 0x40, kaLong := false, newer107 := false, dismount := false,
-    others := [(0x02, "chat message")] }
+    others := [(0x02, "chat message")], setCompressionCb := some 0x46 }
 
 /-- keep-alive −2 (as a signed Long), position (10.0, 64.0, −3.0) yaw 90.0 pitch 0.0 teleport id 7,
 an unknown packet, a chat message, keep-alive 2, disconnect, and a keep-alive that is never
@@ -667,6 +1313,17 @@ def demo47 : List SrvPkt :=
    .posLook 0x4024000000000000 0x4050000000000000 0xC008000000000000 0x42B40000 0x3F800000 0 0 false,
    .unknown 0x7E [0xaa], .other 0x02 "chat message" [0x02, 0x7b, 0x7d, 0x00],
    .keepAlive 2, .disconnect "{}", .keepAlive 3]
+
+/-- Protocol 47 with compression switched in the play state: keep-alive 1, SET COMPRESSION 20,
+position-and-look, keep-alive 2, SET COMPRESSION 1000, keep-alive 3, disconnect. -/
+def demo47sc : List SrvPkt :=
+  [.keepAlive 1, .setCompression 20,
+   .posLook 0x4024000000000000 0x4050000000000000 0xC008000000000000 0x42B40000 0x3F800000 0 0 false,
+   .keepAlive 2, .setCompression 1000, .keepAlive 3, .disconnect "{}"]
+
+/-- The tagged replies of a run with the given caps. -/
+def demoRunT (P : Profile) (capW capR : Nat) (pkts : List SrvPkt) : List Tagged :=
+  (runT P.newer107 true capW capR (inboxOf pkts)).getD []
 
 /-- A toy block function (one output byte depending on the whole register). -/
 def toyE : Bytes → Bytes := fun r => [r.foldl (fun a b => 3 * a + b) 7]
